@@ -263,6 +263,61 @@ def run(db: DB, rep: Report) -> None:
                   "the position variables of time ranks when slip is on, so the stamp reads names that are "
                   "never bound (or stale ones from an earlier Einsum)" % sorted(m))
 
+    # ---- D9: displayed tensors are state-preserving copies --------------------------
+    rep.rule("D9", "the canvas displays the tensors themselves or deep copies of them", 2)
+    cc_ = C_.methods["create_canvas"]
+    apps_ = [n for n in walk_no_nested(cc_.node) if isinstance(n, ast.Call) and isinstance(n.func, ast.Attribute)
+             and n.func.attr == "append" and norm(n.func.value) == "self.tensors"]
+    if len(apps_) < 2:
+        raise AnalysisError("Canvas.create_canvas no longer appends to self.tensors")
+    for a in apps_:
+        v = a.args[0]
+        ok = False
+        if isinstance(v, ast.Call) and norm(v.func).split(".")[-1] == "deepcopy" and len(v.args) == 1:
+            v = v.args[0]
+            ok = True
+        elif isinstance(v, ast.Call) and "get_output" in paths.called_names([v]) and not v.args:
+            ok = True
+        elif isinstance(v, ast.Name):
+            ok = True
+        if ok and isinstance(v, ast.Name):
+            ok = any(isinstance(st, ast.For) and "get_tensors" in paths.called_names([val])
+                     for st, val in paths.defs_of(cc_.node, v.id) if val is not None)
+        rep.check("D9", ok, db.loc(a), cc_.short, "displayed:" + norm(a.args[0])[:50],
+                  "canvas displays %s" % norm(a.args[0])[:50],
+                  "Canvas.create_canvas displays %s, which is neither a tensor of the Einsum nor a deep copy "
+                  "of one: state such as the flattened marker or the current rank pointer is lost, so the "
+                  "canvas tensor and its activity points disagree" % norm(a.args[0])[:60])
+
+    # ---- D10: the slip counter is keyed by the displayed space stamp -----------------
+    rep.rule("D10", "timestamps[...] is keyed by the space stamp that is displayed", 2)
+    n_key = 0
+    for f_ in (G.methods["make_body"], C_.methods["add_activity"]):
+        for n in walk_no_nested(f_.node):
+            if isinstance(n, ast.Call) and norm(n.func) in ("EAccess", "AAccess") and len(n.args) == 2 and \
+                    norm(n.args[0]) == "EVar('timestamps')":
+                n_key += 1
+                key = paths.flow_text(n.args[1], n, f_.node)
+                ok = key.endswith("get_space_tuple()")
+                rep.check("D10", ok, db.loc(n), f_.short, "slip-key@" + f_.short,
+                          "timestamps keyed by %s" % key,
+                          "%s keys the slip counter by %s instead of the displayed space stamp "
+                          "(get_space_tuple()): the counter restarts or is shared differently from the stamp, "
+                          "so two activities can carry the same (space, time)" % (f_.short, key))
+    if n_key < 2:
+        raise AnalysisError("fewer than 2 timestamps[...] accesses found (%d)" % n_key)
+    # and the stamp handed to addActivity starts with that same space tuple
+    sp = [n for n in walk_no_nested(aa_.node) if isinstance(n, ast.Call) and norm(n.func) == "AParam" and
+          n.args and isinstance(n.args[0], ast.Constant) and n.args[0].value == "spacetime"]
+    ok = False
+    if len(sp) == 1 and isinstance(sp[0].args[1], ast.Call) and norm(sp[0].args[1].func) == "ETuple":
+        lst = sp[0].args[1].args[0]
+        if isinstance(lst, ast.List) and len(lst.elts) == 2:
+            ok = paths.flow_text(lst.elts[0], sp[0], aa_.node).endswith("get_space_tuple()")
+    rep.check("D10", ok, db.loc(sp[0]) if sp else db.loc(aa_.node), aa_.short, "stamp-space",
+              "the space component of the stamp is get_space_tuple()",
+              "the stamp handed to addActivity does not start with the space tuple of get_space_tuple()")
+
     # ---- D4 --------------------------------------------------------------------
     rep.rule("D4", "one activity per update", 2)
     ok = False
@@ -413,6 +468,10 @@ def mutants(db: DB):
           "D7"),
         M("time tuple under slip with empty space", cv, "        if spacetime.get_slip():\n            bop = EBinOp(",
           "        if spacetime.get_slip() and spacetime.get_space():\n            bop = EBinOp(", "D8"),
+        M("canvas tensors rebuilt instead of copied", cv, "                self.tensors.append(deepcopy(tensor))",
+          "                self.tensors.append(Tensor(tensor.root_name(), tensor.get_ranks()))", "D9"),
+        M("slip counter keyed by the time tuple", gr, "                space_tup = self.canvas.get_space_tuple()",
+          "                space_tup = self.canvas.get_time_tuple()", "D10"),
         M("activity moved to the footer arm", hf,
           "                    code.add(self.eqn.make_update())\n                    code.add(self.graphics.make_body())",
           "                    code.add(self.eqn.make_update())", "D4"),
